@@ -3,10 +3,14 @@
 
 Same line protocol as the Lean driver m_c19 (lean/Drivers/C19.lean): one request per line, one reply per line.
 
-  new KIND lo hi base U O N     KIND in ARRAY LIST BAG SET; lo int; hi int or `?` (indeterminate upper bound);
-                                base 0|1|2 (INTEGER STRING REAL); U,O = UNIQUE/OPTIONAL flags 0|1;
+  reset                         forget all containers (the interpreter and the runtime's module state stay!)
+  use i                         select container slot i (several containers live side by side in one process)
+  new KIND lo hi base U O N     create a container in the current slot; KIND in ARRAY LIST BAG SET; lo int; hi int or
+                                `?` (indeterminate upper bound); base = 0|1|2 (INTEGER STRING REAL) or A0 L1 B2 S0 …
+                                (ARRAY/LIST/BAG/SET OF that simple type); U,O = UNIQUE/OPTIONAL flags 0|1;
                                 N = 1: the base type is passed *by name* with scope= (exercises Type.get_type)
-  set i t v | get i | add t v   item assignment, item read, BAG/SET add; value = type tag t, payload v
+  set i t v | get i | add t v   item assignment, item read, BAG/SET add; value = type t (as for base), payload v;
+                                for an aggregate type the payload is the identity of the inner aggregate object
   size hiindex loindex hibound lobound unique
 replies
   ok | val t v | unset | refused <ExceptionClass> | int n | indet | logical T|F|U | no-aggregate | bad-op
@@ -22,25 +26,55 @@ sys.dont_write_bytecode = True
 
 from stepcode.SimpleDataTypes import INTEGER, STRING, REAL, LOGICAL, Unknown  # noqa: E402
 from stepcode import AggregationDataTypes as A                               # noqa: E402
+from stepcode.BaseType import Aggregate as BaseTypeAggregate                 # noqa: E402
 
 BASES = [INTEGER, STRING, REAL]
 BASE_NAMES = ["INTEGER", "STRING", "REAL"]
 SCOPE = sys.modules[__name__]
 
 
+INNER = {"A": lambda b: A.ARRAY(1, 2, b), "L": lambda b: A.LIST(0, None, b), "B": lambda b: A.BAG(0, None, b),
+         "S": lambda b: A.SET(0, None, b)}
+OBJECTS = {}        # (type token, payload) -> inner aggregate object, and id(object) -> (token, payload); per `reset`
+
+
+def parse_ty(t):
+    """-> ('s', tag) | (kind letter, tag)"""
+    if t.isdigit():
+        if int(t) > 2:
+            raise ValueError("type tag")
+        return ("s", int(t))
+    if len(t) == 2 and t[0] in INNER and t[1] in "012":
+        return (t[0], int(t[1]))
+    raise ValueError("type token")
+
+
+def mk_type(t):
+    k, b = parse_ty(t)
+    return BASES[b] if k == "s" else INNER[k](BASES[b])
+
+
 def mk_val(t, v):
-    if t == 0:
+    k, b = parse_ty(t)
+    if k != "s":
+        if (t, v) not in OBJECTS:
+            o = INNER[k](BASES[b])
+            OBJECTS[(t, v)] = o
+            OBJECTS[id(o)] = (t, v)
+        return OBJECTS[(t, v)]
+    if b == 0:
         return INTEGER(v)
-    if t == 1:
+    if b == 1:
         return STRING("s%d" % v)
-    if t == 2:
-        return REAL(v + 0.5)
-    raise ValueError("type tag")
+    return REAL(v + 0.5)
 
 
 def show_val(x):
     if x is None:
         return "unset"
+    if isinstance(x, BaseTypeAggregate):
+        tv = OBJECTS.get(id(x))
+        return "val %s %d" % tv if tv else "val ? %r" % (x,)
     if isinstance(x, INTEGER):
         return "val 0 %d" % int(x)
     if isinstance(x, STRING) and x[:1] == "s":
@@ -78,8 +112,9 @@ def handle(agg, w):
     if op == "new":
         if len(w) != 8:
             return agg, "bad-op"
-        kind, lo, hi, base, u, o, byname = w[1], int(w[2]), (None if w[3] == "?" else int(w[3])), int(w[4]), w[5] == "1", w[6] == "1", w[7] == "1"
-        bt = BASE_NAMES[base] if byname else BASES[base]
+        kind, lo, hi, base, u, o, byname = w[1], int(w[2]), (None if w[3] == "?" else int(w[3])), w[4], w[5] == "1", w[6] == "1", w[7] == "1"
+        byname = byname and base.isdigit()
+        bt = BASE_NAMES[int(base)] if byname else mk_type(base)
         kw = {"scope": SCOPE} if byname else {}
         try:
             if kind == "ARRAY":
@@ -100,12 +135,12 @@ def handle(agg, w):
     indexed = isinstance(agg, (A.ARRAY, A.LIST))
     try:
         if op == "set" and len(w) == 4 and indexed:
-            agg[int(w[1])] = mk_val(int(w[2]), int(w[3]))
+            agg[int(w[1])] = mk_val(w[2], int(w[3]))
             return agg, "ok"
         if op == "get" and len(w) == 2 and indexed:
             return agg, show_val(agg[int(w[1])])
         if op == "add" and len(w) == 3 and not indexed:
-            agg.add(mk_val(int(w[1]), int(w[2])))
+            agg.add(mk_val(w[1], int(w[2])))
             return agg, "ok"
         if len(w) == 1:
             if op == "size":
@@ -126,14 +161,21 @@ def handle(agg, w):
 
 
 def main():
-    agg = None
+    slots, cur = {}, 0
     out = sys.stdout
     for line in sys.stdin:
         w = line.split()
         if not w:
             continue
         try:
-            agg, r = handle(agg, w)
+            if w == ["reset"]:
+                slots, cur = {}, 0
+                OBJECTS.clear()
+                r = "ok"
+            elif w[0] == "use" and len(w) == 2:
+                cur = int(w[1]); r = "ok"
+            else:
+                slots[cur], r = handle(slots.get(cur), w)
         except Exception as e:          # malformed request
             r = "bad-op"
         out.write(r + "\n")
